@@ -8,7 +8,7 @@ LEVEL = 'model_checking'
 def run(rep: Report, tier: str, only=None) -> None:
 	thorough = tier == 'thorough'
 	t = 1800 if thorough else 300
-	bit_bound = 1 << 4 if thorough else 1 << 3
+	bit_bound = 12 if thorough else 1 << 3
 	jobs: list[Job] = []
 	for op in ['+', '-', '*', '%']:
 		jobs.append(Job('K1.int_binop', H, 'int_binop', {'op': op}, t, 'S', 'unbounded symbolic ints', ('value',)))
@@ -35,7 +35,7 @@ def run(rep: Report, tier: str, only=None) -> None:
 	jobs.append(Job('K4.escaped_concat', H, 'escaped_concat', {}, t, 'F', 'all pairs of 17 literals with escapes (escaped quote of the own kind at the start / end / alone, escaped backslash before the closing quote, other-kind quotes, \\n / \\t, empty, triple-quoted): the result text is a Python literal denoting the concatenation, or the evaluator refuses', ('value',)))
 	for cast in ['int', 'float', 'str']:
 		jobs.append(Job('K5.cast', H, 'cast_of_int', {'cast': cast, **({'bound': 200} if cast == 'str' else {})}, t, 'S', f'{cast}(<symbolic int>)' + (' |v| < 200 (decimal rendering is realised)' if cast == 'str' else ' unbounded'), ('value',)))
-		jobs.append(Job('K5.cast', H, 'cast_of_string', {'cast': cast, 'classes': ['"', "'", '0123456789', '.', 'abc', ' -'], 'n': n_str}, t, 'S', f'{cast}(<literal text <= {n_str}>) plain quoted literal without escapes'))
+		jobs.append(Job('K5.cast', H, 'cast_of_string', {'cast': cast, 'classes': ['"', "'", '0123456789', '.', 'abc', ' -'], 'n': min(n_str, 4)}, t, 'S', f'{cast}(<literal text <= {min(n_str, 4)}>) plain quoted literal without escapes'))
 	if only:
 		jobs = [j for j in jobs if j.obligation in only or j.obligation.split('.')[0] in only]
 	rep.functions = ['LiteralEvaluator._op_bin_each', 'LiteralEvaluator._calc', 'LiteralEvaluator._bitwise', 'LiteralEvaluator._allow_string', 'LiteralEvaluator._cat',
